@@ -5,6 +5,9 @@ import (
 	"fmt"
 	"os"
 
+	_ "github.com/twpayne/go-geom/encoding/geojson"
+	_ "github.com/twpayne/go-geom/encoding/igc"
+	_ "github.com/twpayne/go-geom/encoding/wkt"
 	_ "github.com/twpayne/go-geom/internal/zzverif/h"
 	"github.com/twpayne/go-geom/internal/zzverif/sym"
 )
